@@ -537,7 +537,7 @@ func (in *Interp) concretise(t T) int64 {
 	}
 	for n := 0; ; n++ {
 		if n >= p.maxConc {
-			panic(abortPath{abortBudget, fmt.Sprintf("concretisation budget %d exceeded", p.maxConc)})
+			panic(abortPath{abortBudget, fmt.Sprintf("concretisation budget %d exceeded (in %s)", p.maxConc, in.stackTail(5))})
 		}
 		if len(p.decs) >= p.maxDecs {
 			panic(abortPath{abortBudget, fmt.Sprintf("decision budget %d exceeded", p.maxDecs)})
@@ -683,3 +683,18 @@ func sortedKeys[V any](m map[string]V) []string {
 }
 
 var debugOneSided = os.Getenv("SYMGO_ONESIDED") != ""
+
+func (in *Interp) stackTail(n int) string {
+	st := in.fnStack
+	if len(st) > n {
+		st = st[len(st)-n:]
+	}
+	out := ""
+	for i, f := range st {
+		if i > 0 {
+			out += " > "
+		}
+		out += f
+	}
+	return out
+}
